@@ -1269,6 +1269,12 @@ class State:
         src, elem = s[1], s[2]
         self.loops.append(src)
         self.effect('loop_begin', 'for', (src,), e)
+        lvars = {}
+        for vid, vname in assigned_locals(body).items():
+            if vid in env:
+                lv = ('call', 'loopvar', (src, env[vid], ('lit', vname, '')))
+                lvars[vid] = lv
+                env[vid] = lv
         snapshot = dict(env)
         try:
             if not self.match(pat, elem, env, irrefutable=True):
@@ -1284,6 +1290,11 @@ class State:
         finally:
             self.loops.pop()
             self.effect('loop_end', 'for', (src,), e)
+        for vid, lv in lvars.items():
+            upd = env.get(vid)
+            self.effect('loop_update', lv[2][2][1], (lv, upd), e)
+            env[vid] = ('call', 'loop_result', (lv, upd))
+            snapshot[vid] = env[vid]
         # loop-carried locals become functions of the loop
         for kk, vv in list(env.items()):
             if kk in snapshot and snapshot[kk] != vv:
@@ -1355,6 +1366,12 @@ class State:
                 marker = ('call', 'while', (src,))
                 self.loops.append(marker)
                 self.effect('loop_begin', 'while', (src,), e)
+                lvars = {}
+                for vid, vname in assigned_locals(ifn['t']).items():
+                    if vid in env:
+                        lv = ('call', 'loopvar', (marker, env[vid], ('lit', vname, '')))
+                        lvars[vid] = lv
+                        env[vid] = lv
                 snapshot = dict(env)
                 try:
                     binder(env)
@@ -1369,6 +1386,11 @@ class State:
                 finally:
                     self.loops.pop()
                     self.effect('loop_end', 'while', (src,), e)
+                for vid, lv in lvars.items():
+                    upd = env.get(vid)
+                    self.effect('loop_update', lv[2][2][1], (lv, upd), e)
+                    env[vid] = ('call', 'loop_result', (lv, upd))
+                    snapshot[vid] = env[vid]
                 for kk, vv in list(env.items()):
                     if kk in snapshot and snapshot[kk] != vv:
                         env[kk] = ('call', 'loop_carried', (marker, vv))
@@ -1459,6 +1481,31 @@ class State:
 
 
 NOTBUILTIN = object()
+
+
+def assigned_locals(node):
+    """ids of locals that are targets of `=` / `op=` inside node (not descending into closures)"""
+    out = {}
+
+    def tgt(t):
+        while t.get('k') == 'Unary' and t.get('op') == 'Deref':
+            t = t['a']
+        if t.get('k') == 'Path' and t.get('res') == 'local' and not (t.get('ty') or '').startswith('&'):
+            out[t['id']] = t.get('name')
+
+    def walk(n):
+        if isinstance(n, dict):
+            if n.get('k') == 'Closure':
+                return
+            if n.get('k') in ('Assign', 'AssignOp'):
+                tgt(n['a'])
+            for v in n.values():
+                walk(v)
+        elif isinstance(n, list):
+            for v in n:
+                walk(v)
+    walk(node)
+    return out
 
 
 def strip_place(n):
